@@ -860,7 +860,7 @@ impl Control {
         let mut got: Vec<String> = Vec::new();
         let mut sentinel_answered = false;
         loop {
-            match rx.recv_timeout(std::time::Duration::from_millis(3000)) {
+            match rx.recv_timeout(std::time::Duration::from_millis(10000)) {
                 Ok(l) => {
                     let is_sentinel = l.contains("\"id\":\"verif-end-of-session\"") && l.contains("\"result\"");
                     got.push(l);
@@ -1506,7 +1506,9 @@ fn gen_line_bytes(rng: &mut Rng) -> Vec<u8> {
 impl Component for Control {
     fn rule(&self) -> &'static str {
         "control: a case is 5-20 ops on three fresh DynamicConfigs (dispatch / dispatch_async without ctx / with \
-         ctx); `line` = one raw input line (hex) + the mirror-struct decode: well-formed requests (9 built-in \
+         ctx); `line` = one raw input line as BYTES (hex; one in eight is not valid UTF-8: garbage, overlong / \
+         truncated / surrogate sequences inside strings, between tokens, alone) decoded like the listeners do \
+         (from_utf8_lossy) + the mirror-struct decode: well-formed requests (9 built-in \
          methods and unknown ones x well-typed / ill-typed / missing / duplicate / extreme params, ms at \
          0,999,1000,1001,59999,60000,60001,2^32,2^63,2^64-1,2^64,floats,negatives,strings; ids of every JSON type \
          incl. null/absent/huge/float/nested; jsonrpc right, wrong, missing, non-string; escapes, member order, \
@@ -1516,7 +1518,8 @@ impl Component for Control {
          whitespace lines, random unicode; plus `cli` (from_cli with extreme timeouts), `env` (stats provider absent / default / \
          updated from 0-4 test links, CriticalWindow passed or not), `cw` (sidecar counters) and `race` (real \
          threads: concurrent setters and snapshot/get_status readers); one case in three is also replayed \
-         over a real Unix control socket at the end of the case. Non-trivial: at least one successful set_* that changed the \
+         over a real Unix control socket and one in four through the real stdin listener (child process) at \
+         the end of the case. Non-trivial: at least one successful set_* that changed the \
          configuration and at least three distinct response classes (ok / an error code / no response)."
     }
 
